@@ -172,11 +172,12 @@ def s5(ctx, rep, clause="S5"):
         "PAUSE": [("pause_trial", ctx.sel_call(method="pause_trial", recv="TrialBackend")),
                   ("on_trial_remove", ctx.sel_call(method="on_trial_remove", recv="TrialScheduler"))],
     }
+    from .common import consistent_with
     for dec, reqs in need.items():
-        for t, s in [(t, s) for t, s in c02.decision_edges(ctx, f, dec) if t in cfg.reachable(nid)]:
+        for t, s, cnd, tru in [e for e in c02.decision_edges_l(ctx, f, dec) if e[0] in cfg.reachable(nid)]:
             for name, sel in reqs:
                 bn = ctx.nodes(f, sel, "must", 0)
-                p = cfg.path(s, head, deleted=bn, skip_labels=("exc",)) if s not in bn else None
+                p = cfg.path(s, head, deleted=bn, skip_labels=("exc",), edge_ok=consistent_with(cnd, tru)) if s not in bn else None
                 rep.put(bool(bn) and p is None, clause, "must_follow", f"Tuner._update_running_trials: {dec} edge → {name}", f,
                         cfg.nodes[t].stmt, "", f"a {dec} decision can be processed without {name}",
                         witness=cfg.describe_path(p) if p else None)
@@ -305,6 +306,11 @@ def s5b(ctx, rep, clause="S5"):
         require_guard(ctx, rep, clause, g, f"Tuner._schedule_new_task: backend.{meth} | spawn_new_trial_id is {truth}", nodes,
                       [(f"{'' if truth else 'not '}{flag}", lambda a, t=truth: a[0] == "truth" and a[1] == flag and a[2] is t)],
                       "a suggestion to resume a paused trial starts a new trial instead (or a new configuration is run by resuming an old trial)")
+    adds = [n for n, c in call_nodes(ctx, f, lambda c: fn_name(c) == "add" and "trials_scheduler_stopped" in U(c.func.value))]
+    require_guard(ctx, rep, clause, f, "Tuner._update_running_trials: a trial is marked as stopped by the scheduler | decision == STOP", adds,
+                  [("decision == SchedulerDecision.STOP", lambda a: a[0] == "eq" and a[3] is True and any(x.endswith("SchedulerDecision.STOP") for x in (a[1], a[2])))],
+                  "a trial the scheduler only paused is marked as stopped by the scheduler and the mark is never cleared: when it is resumed and then "
+                  "stopped from outside, the scheduler is not told about the failure and the trial stays in the running set for ever")
     pc = P.method("SimulatorBackend", "_process_complete_event")
     cpc = cfg_of(pc)
     stw = [n for n in cpc.nodes if n.kind == "stmt" and isinstance(n.ast, ast.Assign) and any(isinstance(t, ast.Attribute) and t.attr == "status" for t in n.ast.targets)]
@@ -342,11 +348,25 @@ def _status_of(ctx, f, nid):
 def s6(ctx, rep, clause="S6"):
     P = ctx.P
     tf = P.cls("Tuner")
-    want = {"on_trial_add": 1, "on_trial_result": 1, "on_trial_remove": 2, "on_trial_complete": 1, "on_trial_error": 2}
-    for m, k in want.items():
+    # every notification has a call site in the tuning loop, and none is issued twice on one path through its function
+    for m in ("on_trial_add", "on_trial_result", "on_trial_remove", "on_trial_complete", "on_trial_error"):
         sites = [(f, c) for f, c in ctx.all_calls_anywhere(method=m, recv="TrialScheduler", allow_name=False) if f.cls is tf]
-        rep.put(len(sites) == k, clause, "agreement", f"Tuner: {k} call site(s) of scheduler.{m}", tf, None, "",
-                f"{len(sites)} call sites of scheduler.{m} in the tuning loop (confirmed: {k}); a notification is duplicated or lost")
+        twice = None
+        for f_ in {f for f, c in sites}:
+            cf_ = cfg_of(f_)
+            nds = [n.id for n in cf_.nodes if any(isinstance(x, ast.Call) and any(x is c for g, c in sites if g is f_) for x in cf_.node_walk(n.id))]
+            heads_ = {n.id for n in cf_.nodes if n.kind in ("for",)} | {n.id for n in cf_.nodes if n.kind == "test" and any(
+                isinstance(w, ast.While) and w.test is n.ast for w in ast.walk(f_.node))}
+            from ..engine import dominating_edges
+            from .common import consistent_with
+            for a_ in nds:
+                oks_ = [consistent_with(c_, t_) for (_, c_, t_) in dominating_edges(cf_, a_)]
+                for b_ in nds:
+                    if cf_.path([s_ for s_, l in cf_.succ[a_]], b_, deleted=heads_, skip_labels=("exc",),
+                                edge_ok=lambda lab, oks_=oks_: all(o(lab) for o in oks_)) is not None:
+                        twice = (f_, a_, b_)
+        rep.put(bool(sites) and twice is None, clause, "agreement", f"Tuner: scheduler.{m} is called, and at most once per trial and iteration", tf, None, f"{len(sites)} site(s)",
+                f"{len(sites)} call site(s) of scheduler.{m}" + ("; one iteration can pass two of them: the notification is duplicated" if twice else ": the notification is lost"))
     for cname in ("SchedulerDecision", "Status"):
         c = P.cls(cname)
         vals = {}
